@@ -70,7 +70,7 @@ func c15(w *core.World, rep *core.Report) {
 	// concrete shapes: keep paths apart (merging an error path into the main one would make the encoded octets
 	// conditional and every later read symbolic)
 	w.Cx.NoMerge = true
-	RunJobs(w, rep, ContractJobs(w, rep, c15Lemmas))
+	RunJobs(w, rep, MarkBounded(ContractJobs(w, rep, c15Lemmas)))
 	w.Cx.NoMerge = false
 	// unknown identifiers: only the first element matters; deeper iterations on the arbitrary rest are not explored
 	w.Cx.MaxVisits = 2
